@@ -151,14 +151,54 @@ def _call_encode(content, level, version, micro, eci):
 def replay_encode_version(model, obligation, level, micro, eci, version):
     """search, around the solver's model, for real content on which encode()
     violates the clause; the spec side uses the real segments of that content"""
-    order = _arrange(model)
-    if order is None:
-        return dict(confirmed=False, detail='model needs adjacent parts of one class (unreachable: they are merged)')
+    # orders of part classes: the model's own multiset if it is reachable (same-class neighbours are merged by add_segment),
+    # then generic alternations of two / three classes with a growing number of parts
+    orders = []
+    o = _arrange(model)
+    if o is not None:
+        orders.append((o, 400))
+    classes = [cls for _, cls in _KEYS]
+    # single-part contents whose length sits on a capacity boundary (of the requested version, else of every version)
+    reqv = None if version is None else (consts.MICRO_VERSION_MAPPING[version] if isinstance(version, str) else version)
+    boundary = []
+    for cls in classes:
+        for V in ([reqv] if reqv is not None else list(iso.ALL_VERSIONS)):
+            def fit_n(n, cls=cls, V=V):
+                try:
+                    segs_ = encoder.prepare_data(_content([cls], 0, n - 1), None, None)
+                    return iso.fits(V, parts_of_segments(segs_), level, eci, micro)
+                except Exception:
+                    return False
+            if not fit_n(1):
+                continue
+            lo_, hi_ = 1, 8192
+            while lo_ < hi_:
+                mid = (lo_ + hi_ + 1) // 2
+                if fit_n(mid):
+                    lo_ = mid
+                else:
+                    hi_ = mid - 1
+            boundary.append((cls, lo_))
+    for cls, nmax in boundary:
+        for n in (nmax - 1, nmax, nmax + 1, nmax + 2):
+            if n >= 1:
+                orders.append((('single', cls, n), 1))
+    for k in (1, 2, 3, 4, 5, 7, 9, 12, 20, 30, 42):
+        for a in classes:
+            for b in classes:
+                if a != b:
+                    orders.append((([a, b] * k)[:2 * k - (k % 2)], 40 if k < 6 else 6))
     req = None if version is None else (consts.MICRO_VERSION_MAPPING[version] if isinstance(version, str) else version)
     tried = 0
-    for grow in range(min(len(order), 3)):
-        for n_extra in range(0, 400):
-            content = _content(order, grow, n_extra)
+    import time as _time
+    t_end = _time.time() + 90
+    for order, max_extra in orders:
+      if tried > 60000 or _time.time() > t_end:
+          break
+      single = isinstance(order, tuple) and order and order[0] == 'single'
+      for grow in range(1 if single else min(len(order), 2 if max_extra < 400 else 3)):
+        for n_extra in range(0, max_extra):
+            content = _content([order[1]], 0, order[2] - 1) if single else _content(order, grow, n_extra)
             try:
                 segs = encoder.prepare_data(content, None, None)
             except Exception as ex:
@@ -425,11 +465,11 @@ def replay_make_blocks(model, obligation, version, level):
     return dict(confirmed=False, call=call, detail='all blocks are valid codewords for the tried data')
 
 
-def replay_final_message(model, obligation, version, level):
+def _replay_final_message_one(version, level, pattern):
     structure = iso.block_structure(version, level)
     shapes = [(t, d) for nb, t, d in structure for _ in range(nb)]
     n_data = sum(d for t, d in shapes)
-    data = [(11 * i + 3) % 256 for i in range(n_data)]
+    data = [pattern(i) for i in range(n_data)]
     bits = []
     for b in data:
         bits.extend((b >> i) & 1 for i in reversed(range(8)))
@@ -464,6 +504,20 @@ def replay_final_message(model, obligation, version, level):
         k = next((i for i, (a, b) in enumerate(zip(out, want)) if a != b), min(len(out), len(want)))
         return dict(confirmed=True, call=call, detail='final message has %d bits (ISO %d); first difference at bit %d' % (len(out), len(want), k))
     return dict(confirmed=False, call=call, detail='final message equals the ISO interleaving')
+
+
+def replay_final_message(model, obligation, version, level):
+    """the real make_final_message on several data patterns (a fixed ramp, all zero - every error correction codeword is then zero -,
+    all 0xFF, seeded random bytes): the codeword sequence must be the ISO interleaving for each"""
+    import random
+    rnd = random.Random(1)
+    pats = [lambda i: (11 * i + 3) % 256, lambda i: 0, lambda i: 255] + [(lambda i, r=random.Random(k): r.randrange(256)) for k in range(12)]
+    last = None
+    for pt in pats:
+        last = _replay_final_message_one(version, level, pt)
+        if last.get('confirmed'):
+            return last
+    return last
 
 
 def replay_placement(model, obligation, version):
@@ -686,15 +740,27 @@ def replay_glue(model, obligation, version):
     log = []
     saved = {n: getattr(encoder, n) for n in names}
 
+    depth = [0]
+
     def wrap(n, f):
         def g(*a, **k):
+            if depth[0] > 0:
+                return f(*a, **k)       # a stage called by another stage (the mask stage builds its own function matrix): not a call of _encode
             rec = dict(name=n)
             if n in ('write_terminator', 'write_padding_bits', 'write_pad_codewords'):
                 rec['len_buff'] = len(a[0])
                 rec['length_arg'] = a[-1]
+            if n == 'write_terminator':
+                rec['capacity'] = a[1]
+            if n == 'write_pad_codewords':
+                rec['capacity'] = a[2]
             if n in ('add_format_info', 'make_final_message'):
                 rec['error'] = a[2] if n == 'add_format_info' else a[1]
-            r = f(*a, **k)
+            depth[0] += 1
+            try:
+                r = f(*a, **k)
+            finally:
+                depth[0] -= 1
             if n == 'boost_error_level':
                 rec['result'] = r
             if n == 'find_and_apply_best_mask':
@@ -726,6 +792,9 @@ def replay_glue(model, obligation, version):
         if n in d and d[n]['len_buff'] != d[n]['length_arg']:
             problems.append('%s called with length %r, buffer holds %r bits' % (n, d[n]['length_arg'], d[n]['len_buff']))
     used = d.get('boost_error_level', {}).get('result')
+    for n in ('write_terminator', 'write_pad_codewords'):
+        if n in d and used is not None and d[n].get('capacity') != consts.SYMBOL_CAPACITY[version][used]:
+            problems.append('%s called with capacity %r, the capacity of the level used (%s) is %r' % (n, d[n].get('capacity'), _ln(used), consts.SYMBOL_CAPACITY[version][used]))
     for n in ('make_final_message', 'add_format_info'):
         if n in d and 'boost_error_level' in d and d[n]['error'] != used:
             problems.append('%s uses level %r, boosted level is %r' % (n, d[n]['error'], used))
@@ -1233,6 +1302,7 @@ def replay_sequence_structure(model, obligation, mode, cfg):
     import ast
     from . import qrdecode
     c = dict(dict(error='M'), **ast.literal_eval(cfg))
+    c.pop('eci', None)          # make_sequence has no eci parameter (encode_sequence has)
     unit = {'numeric': '0123456789', 'alphanumeric': 'AB C1$', 'byte': 'abcé', 'kanji': '点茗テ'}[mode]
     n = int((model or {}).get('content_length', 20))
     for ln in (n % 300, 70, 8, 11, 16, 17, 100):
@@ -1398,62 +1468,14 @@ def replay_raster(model, obligation, designator, kind, scale, border, ckw, opts,
 
 
 def replay_colourful(model, obligation, designator, version, kind, scale, border, ckw):
+    """the same colour-indexed document is produced natively and read back by the independent readers"""
     import ast
-    import io
-    import random
-    from . import readers_raster as RR
     from contracts import c09
     c = ast.literal_eval(ckw)
     qr = _qr_for(designator, version, None)
-
-    class _I:
-        def __init__(self):
-            self.fail = None
-
-        def ground_pass(self, *a, **k):
-            pass
-
-        def ground(self, name, cond, witness=None, **k):
-            self.fail = witness
-    probe = _I()
-    # re-run the same comparison natively with the given options
-    orig_sample, orig_choice, orig_random = random.Random.sample, None, None
-    out = io.BytesIO()
-    try:
-        qr.save(out, kind=kind, scale=scale, border=border, **c)
-    except ValueError as ex:
-        return dict(confirmed=False, detail='refused: %s' % ex)
-    except Exception as ex:
-        return dict(confirmed=True, call='save(kind=%r, **%r)' % (kind, c), detail='raised %r' % (ex,))
-    r = getattr(RR, 'read_' + kind)(out.getvalue())
-    size = len(qr.matrix)
-    b = border if border is not None else (2 if qr.is_micro else 4)
-    fm = _layout.function_map(version)
-    dark = c09.expected_rgba(c['dark'], None) if 'dark' in c else (0, 0, 0, 255)
-    light = c09.expected_rgba(c['light'], None) if 'light' in c else (255, 255, 255, 255)
-    bad = list(r.problems)
-    if r.width == (size + 2 * b) * scale:
-        for y in range(r.height):
-            i = y // scale - b
-            for x in range(r.width):
-                j = x // scale - b
-                if not (0 <= i < size and 0 <= j < size):
-                    opt, fallback = 'quiet_zone', light
-                else:
-                    kind_, val = fm[(i, j)]
-                    bit = qr.matrix[i][j]
-                    if version >= 1 and (i, j) == (8, size - 9):
-                        continue
-                    opt = c09.TYPE_OPTIONS.get((kind_, bit), c09.TYPE_OPTIONS.get((kind_, 0)) if kind_ == _layout.SEPARATOR else None)
-                    fallback = dark if bit else light
-                want = (c09.expected_rgba(c[opt], None) if c[opt] is not None else None) if opt in c else fallback
-                got = r.pixels[y][x]
-                ok = (got[3] == 0) if want is None else (tuple(got) == tuple(want))
-                if not ok and len(bad) < 3:
-                    bad.append('pixel (%d,%d) module (%d,%d) option %s: %r, expected %r' % (x, y, i, j, opt, got, want))
-    else:
-        bad.append('dimensions %dx%d' % (r.width, r.height))
-    return dict(confirmed=bool(bad), call='segno symbol %s .save(kind=%r, scale=%r, border=%r, **%r)' % (qr.designator, kind, scale, border, c), detail='; '.join(bad[:3]) or 'colours as configured')
+    probs = c09.colourful_problems(qr, version, kind, scale, border, c)
+    return dict(confirmed=bool(probs), call='segno symbol %s .save(kind=%r, scale=%r, border=%r, **%r)' % (qr.designator, kind, scale, border, c),
+                detail='; '.join(probs[:3]) or 'colours as configured')
 
 
 # ---------------------------------------------------------------- C10 replays
@@ -1781,3 +1803,61 @@ def replay_iter_kernel(model, obligation, function):
                     if rows[y][x] != want:
                         return dict(confirmed=True, call=call, detail='entry (row %d, column %d) is %r, module (%d, %d) gives %r' % (y, x, rows[y][x], i, j, want))
     return dict(confirmed=False, detail='structure as specified on the tried symbols / scales / borders')
+
+
+def replay_colour_values(model, obligation):
+    """native: colours written into SVG documents for tuples / hex values with every alpha value"""
+    import io
+    import re
+    probs = []
+    q = segno.make('colour', micro=False)
+    for a in range(256):
+        for dark, svgversion in (((1, 2, 3, a), None), ('#010203%02x' % a, 2.0)):
+            out = io.BytesIO()
+            try:
+                q.save(out, kind='svg', dark=dark, svgversion=svgversion)
+            except Exception as ex:
+                probs.append('save(kind="svg", dark=%r) raised %r' % (dark, ex))
+                continue
+            doc = out.getvalue().decode('utf-8')
+            m = re.search(r'stroke-opacity="([0-9.]+)"', doc) or re.search(r'rgba\(1,2,3,([0-9.]+)\)', doc)
+            got = float(m.group(1)) if m else (1.0 if 'stroke="#010203"' in doc else None)
+            if got is None or abs(got - a / 255.0) > 0.005:
+                probs.append('save(kind="svg", dark=%r%s): opacity %r in the document, requested %d/255 = %.3f' % (dark, '' if svgversion is None else ', svgversion=2.0', got, a, a / 255.0))
+    m_ = model if isinstance(model, dict) else {}
+    if all(k in m_ for k in 'rgb'):
+        from segno import writers
+        t = tuple(int(m_[k]) for k in 'rgba' if k in m_)
+        try:
+            res = writers._color_to_rgba(t, alpha_float=False)
+            if not all(0 <= v <= 255 for v in t) or tuple(res)[:len(t)] != t:
+                probs.append('_color_to_rgba(%r) returned %r' % (t, res))
+        except ValueError:
+            if all(0 <= v <= 255 for v in t):
+                probs.append('_color_to_rgba(%r) refused' % (t,))
+        except Exception as ex:
+            probs.append('_color_to_rgba(%r) raised %r' % (t, ex))
+    return dict(confirmed=True if probs else None, call='SVG documents with every alpha value 0..255 / the model tuple', detail='; '.join(probs[:3]) or 'no difference observed natively')
+
+
+def replay_colour_string(model, obligation, spell):
+    """native: a colour string that is not a name and not hexadecimal RGB / RGBA / RRGGBB / RRGGBBAA must be refused with ValueError by every serialiser"""
+    import io
+    hexd = '0123456789abcdefABCDEF'
+    body = spell[1:] if spell[:1] == '#' else spell
+    valid = len(body) in (3, 4, 6, 8) and all(c in hexd for c in body)
+    qr = segno.make('C14', micro=False)
+    probs = []
+    for kind in ('png', 'svg', 'eps', 'pdf', 'ppm', 'xpm'):
+        out = io.StringIO() if kind in ('eps', 'xpm') else io.BytesIO()
+        try:
+            qr.save(out, kind=kind, dark=spell)
+            if not valid:
+                doc = out.getvalue()
+                probs.append('save(kind=%r, dark=%r) accepted the malformed colour%s' % (kind, spell, (' and wrote %r' % doc[doc.find(b'stroke'):doc.find(b'stroke') + 24]) if kind == 'svg' else ''))
+        except ValueError:
+            if valid and not (kind in ('ppm', 'xpm', 'eps', 'pdf') and len(body) in (4, 8)):
+                probs.append('save(kind=%r, dark=%r) refused a well-formed colour' % (kind, spell))
+        except Exception as ex:
+            probs.append('save(kind=%r, dark=%r) raised %r' % (kind, spell, ex))
+    return dict(confirmed=bool(probs), call='segno.make("C14", micro=False).save(<stream>, kind=..., dark=%r)' % spell, detail='; '.join(probs[:3]) or 'handled as specified')
